@@ -41,7 +41,7 @@ def ROUTINES():
 
 # ---------------------------------------------------------------- Flip.finalize (no hydrogen bond found: keep the original)
 contract(
-    "pdb2pqr.hydrogens.structures:Flip.finalize", "C14",
+    "pdb2pqr.hydrogens.structures:Flip.finalize", ["C14", "C03"],
     params={"self": Obj("pdb2pqr.hydrogens.structures:Flip", routines=ROUTINES(),
                         residue=Named("res", Obj("pdb2pqr.aa:ASN", fixed=Const(0),
                                                  atoms=Items(Ref("cb"), Ref("od"), Ref("nd"), Ref("odf"), Ref("ndf")),
@@ -54,6 +54,8 @@ contract(
         # ... and every atom taken out of the residue is taken out of the cells as well
         "forall([cb, od, nd, odf, ndf], lambda a: implies(not exists(res.atoms, lambda b: b is a), a.reg is None))",
         "len(res.atoms) == 3",
+        # C03: no *FLIP placeholder name survives
+        "not exists(res.atoms, lambda a: a.name.endswith('FLIP'))",
     ],
     stubs=CELL_STUBS,
     name="Flip.finalize",
@@ -179,12 +181,14 @@ def _ser_with(extra):
 
 
 contract(
-    "pdb2pqr.hydrogens.structures:Alcoholic.complete", "C14",
+    "pdb2pqr.hydrogens.structures:Alcoholic.complete", ["C14", "C03"],
     params={"self": Obj("pdb2pqr.hydrogens.structures:Alcoholic", routines=ROUTINES(),
                         residue=_ser_with({"HG": ("hg", "HG"), "LP1": ("lp1", "LP1"), "LP2": ("lp2", "LP2")}),
                         atomlist=Items(Ref("og")), hname=Const("HG"))},
     requires=[],
-    ensures=["protocol_ok(res, [cb, og, hg, lp1, lp2])", "len(res.atoms) == 3"],
+    ensures=["protocol_ok(res, [cb, og, hg, lp1, lp2])", "len(res.atoms) == 3",
+             # C03: no lone-pair placeholder survives, wherever it stands in the atom list
+             "not exists(res.atoms, lambda a: a.name.startswith('LP')) and 'LP1' not in res.map and 'LP2' not in res.map"],
     stubs=PROTO_STUBS, trace={"pdb2pqr.hydrogens.structures:Alcoholic.finalize": None},
     name="Alcoholic.complete", native=False,
 )
@@ -256,11 +260,12 @@ for _tag, _h, _lp in (("0bonds", (), ()), ("1bond.H1", (), (1,)), ("1bond.H2", (
     )
 
 contract(
-    "pdb2pqr.hydrogens.structures:Water.complete", "C14",
+    "pdb2pqr.hydrogens.structures:Water.complete", ["C14", "C03"],
     params={"self": Obj("pdb2pqr.hydrogens.structures:Water", routines=ROUTINES(), residue=_water((1, 2), (1, 2)),
                         atomlist=Items(Ref("o")))},
     requires=[],
-    ensures=["protocol_ok(res, [o, h1, h2, lp1, lp2])", "len(res.atoms) == 3"],
+    ensures=["protocol_ok(res, [o, h1, h2, lp1, lp2])", "len(res.atoms) == 3",
+             "not exists(res.atoms, lambda a: a.name.startswith('LP')) and 'LP1' not in res.map and 'LP2' not in res.map"],
     stubs=PROTO_STUBS, trace={"pdb2pqr.hydrogens.structures:Water.finalize": None},
     name="Water.complete", native=False,
 )
